@@ -21,7 +21,7 @@ enum Op {
     Run(usize),
 }
 
-const SOURCES: [&str; 26] = [
+const SOURCES: [&str; 28] = [
     "|12 34 56| var b",
     "b open-bitstr 8 bits drop 4 bits",
     "|ff| b bitstr-append ! b",
@@ -50,6 +50,8 @@ const SOURCES: [&str; 26] = [
     "|FF| swap bitstr-append",
     "bitstr-not",
     "dup open-bitstr offset remain close-bitstr",
+    "[ 1 2 3 ] >bitstr open-bitstr 1 bytes close-bitstr",
+    "w",
 ];
 const D2_PROBE: &str = "d2-width d2-height 1 1 d2-data";
 const COPIES: usize = 3;
@@ -155,7 +157,7 @@ fn op_text(op: &Op) -> String {
 
 fn alphabet(quick: bool) -> Vec<Op> {
     let mut ops = vec![Op::Clone(0, 1), Op::Clone(1, 2), Op::Clone(0, 2)];
-    let srcs: Vec<usize> = if quick { vec![0, 2, 3, 5, 6, 7, 8, 10, 12, 13, 14, 15, 16, 18, 20, 22, 23, 24, 25] } else { (0..SOURCES.len()).collect() };
+    let srcs: Vec<usize> = if quick { vec![0, 2, 3, 5, 6, 7, 8, 10, 11, 12, 13, 14, 15, 16, 18, 20, 22, 23, 24, 25, 26, 27] } else { (0..SOURCES.len()).collect() };
     for x in 0..2 {
         for s in &srcs {
             ops.push(Op::Eval(x, *s));
@@ -328,7 +330,9 @@ pub fn run(cfg: &Cfg) -> i32 {
     prefixes.push((vec![clone_ab], depth));
     for (i, o) in ops.iter().enumerate() {
         if let Op::Eval(0, _) | Op::Step(0, _) = o {
-            prefixes.push((vec![i, clone_ab], depth - 1));
+            // definitions shared by both copies get the full depth (shadowing / caching across copies)
+            let shared_def = matches!(o, Op::Eval(0, 10) | Op::Eval(0, 14) | Op::Eval(0, 0));
+            prefixes.push((vec![i, clone_ab], if shared_def { depth } else { depth - 1 }));
             for (j, o2) in ops.iter().enumerate() {
                 if let Op::Eval(0, _) = o2 {
                     prefixes.push((vec![i, j, clone_ab], depth - 2));
